@@ -48,7 +48,8 @@ func c09Policy(thr int, trusted bool) *world.PolicySpec {
 		RootVersion: 1, RootKeys: []int{0}, RootThreshold: 1, TargetsKeys: []int{0}, TargetsThreshold: 1, RootSigners: []int{0},
 		Apps: []world.AppSpec{{Name: appName, Keys: []int{appKey}, Trusted: trusted, Threshold: 1}, {Name: app2Name, Keys: []int{app2Key}, Trusted: false, Threshold: 1}},
 		Files: map[string]*world.RuleFileSpec{"targets": {Version: 1, Principals: ps, Signers: []int{0},
-			Rules: []world.RuleSpec{{Name: "protect-main", Patterns: []string{"git:" + mainRef}, Principals: ids[:3], Threshold: thr}}}},
+			Rules: []world.RuleSpec{{Name: "protect-main", Patterns: []string{"git:" + mainRef}, Principals: ids[:3], Threshold: thr},
+				{Name: "protect-tags", Patterns: []string{"git:refs/tags/*"}, Principals: ids[:3], Threshold: thr}}}},
 	}
 }
 
@@ -196,6 +197,33 @@ func (c09) Generate(r *core.Rand, tier string, idx uint64) *core.Case {
 		if r.Chance(0.4) {
 			b.add(world.Op{Kind: "verify", Actor: 0, Ref: mainRef, Mode: []string{"full", "latest"}[r.Intn(2)]})
 		}
+		if r.Chance(0.3) {
+			// a release tag for the commit just recorded: the tag object is signed by a trusted person,
+			// approvals must name the tag reference, the zero prior state and the COMMIT the tag points to
+			tagRef := fmt.Sprintf("refs/tags/v%d", ch)
+			tagger := r.Range(1, 3)
+			for i, n := 0, r.Range(0, 3); i < n; i++ {
+				ap := &world.ApproveSpec{Ref: tagRef, FromOp: 0, ToOp: cm, Tag: true, Signers: []int{r.Range(1, 4)}}
+				switch r.Intn(6) {
+				case 0: // bound to the commit's tree, as a branch approval would be: not this change
+					ap.Tag = false
+				case 1: // an approval for another tag name
+					ap.Ref = "refs/tags/other"
+				case 2: // an approval for main
+					ap.Ref, ap.Tag, ap.FromOp = mainRef, false, lastEntry
+				}
+				b.add(world.Op{Kind: "approve", Actor: ap.Signers[0], Approve: ap})
+			}
+			recorder, rk := tagger, -2
+			switch r.Intn(5) {
+			case 0:
+				recorder = 4 // defined but not trusted for tags
+			case 1:
+				rk = -1
+			}
+			b.add(world.Op{Kind: "tag", Actor: recorder, Ref: tagRef, Base: fmt.Sprintf("op:%d", cm), CommitKey: tagger, EntryKey: rk})
+			b.add(world.Op{Kind: "verify", Actor: 0, Ref: tagRef, Mode: "full"})
+		}
 	}
 	c.Ops = b.ops
 	return c
@@ -204,7 +232,13 @@ func (c09) Generate(r *core.Rand, tier string, idx uint64) *core.Case {
 func (d c09) Execute(c *core.Case) *core.Result {
 	res := &core.Result{}
 	keys := []int{0, 1, 2, 3, 4, appKey, outsiderKey, app2Key}
-	run := runPolicyCase(c, keys, nil, []string{mainRef}, nil)
+	finalRefs := []string{mainRef}
+	for _, op := range c.Ops {
+		if op.Kind == "tag" {
+			finalRefs = append(finalRefs, op.Ref)
+		}
+	}
+	run := runPolicyCase(c, keys, nil, finalRefs, nil)
 	if run.Harness != "" {
 		res.HarnessErr = run.Harness
 		return res
@@ -279,11 +313,20 @@ func (d c09) Execute(c *core.Case) *core.Result {
 		for f := range byzSeen {
 			feats = append(feats, f)
 		}
+		if strings.HasPrefix(rec.Op.Ref, "refs/tags/") {
+			res.Stat(fmt.Sprintf("tag_verifications_expectation_%d(1=accept,2=reject,0=unspecified)", exp), 1)
+			if exp == mustAccept && rec.Verdict.Class == "accept" {
+				res.Stat("probe:tag_accepted_as_demanded", 1)
+			}
+		}
 		switch exp {
 		case mustReject:
 			specified++
 			res.Stat("verdicts_must_reject", 1)
 			if rec.Verdict.Class == "accept" {
+				if strings.HasPrefix(rec.Op.Ref, "refs/tags/") {
+					feats = append(feats, "tag-reference")
+				}
 				res.Violate("C09", "approval-miscount", fmt.Sprintf("%s verification of %s succeeded although %s", modeOf(&rec.Op), rec.Op.Ref, why), rec.Op.ID, append(feats, "direction=false-accept", "mode="+modeOf(&rec.Op))...)
 			}
 		case mustAccept:
@@ -311,6 +354,7 @@ func (d c09) Execute(c *core.Case) *core.Result {
 	res.Stat("probe:threshold_met_only_via_approval", boolInt(thresholdViaApproval(l)))
 	res.Stat("probe:code_review_identity_credited", boolInt(reviewCredited(run)))
 	res.Stat("probe:misfiled_or_lifted_written", boolInt(len(byzSeen) > 0))
+	res.Stat("probe:tag_entry_verified", boolInt(len(finalRefs) > 1))
 	res.Sample = map[string]any{"ops": describeOps(c.Ops), "approvals": apat, "entries": pattern, "verdict/expectation": vec}
 	return res
 }
